@@ -882,6 +882,8 @@ def key_seq(line, impl, model):
 
 
 def run_seq(ctx, exe):
+    ctx.assumptions.append("histories on one rendezvous object are sequential: one Exchange at a time on ONE httpRendezvous / ampCacheRendezvous, "
+                           "each followed by the same Exchange on a new object with the same configuration")
     specs = gen_seq(ctx)
     qa = ["%s bparse %s %s" % (AREA, sx(t[1]), sx(t[2]) if t[2] else "n") for t in specs]
     resps = sorted({e[4] for t in specs if t[0] == "a" for e in t[4]})
